@@ -480,6 +480,7 @@ def _run(ctx):
                              'out)' % sorted(caches), ctx.loc(m, x.ast))
     if n_cache < 1:
         raise AnalysisError('C15.R7: no cache-backed return found')
+    tx_cache_lifetime(ctx, r7)
 
     # ---- R6 identity ---------------------------------------------------------
     r6 = ctx.rule('R6', 'caller identity comes from the request context',
@@ -614,6 +615,62 @@ def _admin_gated(f, call):
             return has(ab[1], lambda y: isinstance(y, ast.Call) and
                        U.call_name(y) == '_secure_query')
     return False
+
+
+def tx_cache_lifetime(ctx, rule):
+    """The results of the expression functions tasks() / executions() /
+    task() / execution() are memoised per DB transaction, keyed by their
+    arguments only (not by the caller).  That is safe exactly as long as the
+    cache lives and dies with the thread's session: it is created when a
+    session is bound to the thread and dropped when the session is unbound,
+    by the one function that does both, so no way of ending a transaction
+    (commit, rollback, an exception with nothing to roll back) can leave it
+    for the next caller served by the thread."""
+    prog = ctx.prog
+    B = 'mistral.db.sqlalchemy.base'
+    KEY = '_TX_SCOPED_CACHE_THREAD_LOCAL_NAME'
+    setters = {}
+    for q, f in sorted(prog.funcs.items()):
+        if '.tests.' in q:
+            continue
+        for c in own_nodes(f.node):
+            if isinstance(c, ast.Call) and \
+                    U.call_name(c) == 'set_thread_local' and c.args and \
+                    norm(c.args[0]).endswith(KEY):
+                setters.setdefault(q, []).append(c)
+    rule.check(set(setters) == {B + '._set_thread_local_session'},
+               B + ' :: who binds the transaction cache',
+               'the per-transaction cache is (re)bound by %s, not only '
+               'together with the session' % sorted(setters),
+               prog.loc(B + '._set_thread_local_session'))
+    f = prog.func(B + '._set_thread_local_session')
+    cfg = ctx.cfg(f)
+    sp = f.params[0]
+    ok = False
+    new = [c for c in setters.get(f.qname, []) if len(c.args) > 1 and
+           isinstance(c.args[1], ast.Call) and
+           U.call_name(c.args[1]) in ('LRUCache', 'dict', 'LFUCache',
+                                      'TTLCache')]
+    drop = [c for c in setters.get(f.qname, []) if len(c.args) > 1 and
+            isinstance(c.args[1], ast.Constant) and c.args[1].value is None]
+    if len(new) == 1 and len(drop) == 1:
+        T = '%s is None' % sp
+        ok = U.guarded(cfg, cfg.node_of(new[0]), T, False) and \
+            U.only_guards(cfg, cfg.node_of(new[0]), [(T, False)]) and \
+            U.guarded(cfg, cfg.node_of(drop[0]), T, True) and \
+            U.only_guards(cfg, cfg.node_of(drop[0]), [(T, True)])
+    rule.check(ok, ctx.construct(f, extra='cache lives with the session'),
+               'binding a session does not create a fresh transaction cache '
+               '/ unbinding it does not drop the cache', ctx.loc(f))
+    g = prog.func(B + '.get_tx_scoped_cache')
+    rets = [x for x in own_nodes(g.node) if isinstance(x, ast.Return)]
+    rule.check(len(rets) == 1 and U.phas(
+        rets[0].value, 'utils.get_thread_local(%s)' % KEY) and not [
+            c for c in own_nodes(g.node) if isinstance(c, ast.Call) and
+            U.call_name(c) != 'get_thread_local'],
+        ctx.construct(g, extra='hands out the bound cache only'),
+        'get_tx_scoped_cache does more than return the cache bound with '
+        'the session', ctx.loc(g))
 
 
 def check_mutation(ctx, r3, f):
